@@ -443,6 +443,32 @@ class _Alarm(BaseException):
     pass
 
 
+class OpTimeout(Exception):
+    """a single library operation exceeded its watchdog (reported as 'does not return', not as undecided)"""
+
+
+@contextmanager
+def watchdog(seconds):
+    """per-operation watchdog nested inside the harness budget (signal.setitimer based)."""
+    t0 = time.time()
+    fired = {"me": False}
+
+    def on(signum, frame):
+        fired["me"] = True
+        raise OpTimeout(f"operation did not return within {seconds}s")
+
+    old_handler = signal.signal(signal.SIGALRM, on)
+    old_delay, _ = signal.setitimer(signal.ITIMER_REAL, seconds)
+    try:
+        yield
+    finally:
+        signal.setitimer(signal.ITIMER_REAL, 0)
+        signal.signal(signal.SIGALRM, old_handler)
+        if old_delay:
+            rest = old_delay - (time.time() - t0)
+            signal.setitimer(signal.ITIMER_REAL, max(rest, 0.01))
+
+
 def _on_alarm(signum, frame):
     raise _Alarm()
 
